@@ -131,6 +131,8 @@ def run_case(case):
     stop_evt = threading.Event()
     cfg = {'id': 'f'}
     propagated = end in ('prop_clean', 'prop_error')
+    if case.get('cfg_key') is not None:     # a filter-specific option holding a mapping with this key (class names, label maps, ffmpeg options ...)
+        cfg['labels'] = {case['cfg_key']: 3, 'person': 1}
     if propagated:
         cfg['sources'] = 'tcp://127.0.0.1:6000'
     if end == 'exit_after':
@@ -176,7 +178,7 @@ def run_case(case):
         lin.threading = _S['real_threading']
         lin.create_openfilter_facet_with_fields = orig_facet
     seq = [e[0] for e in events]
-    classes = [f'end {end}', f'emit cost {case["emit_cost_ms"]}', f'interval {case["interval_ms"]}'] + (['run() called from inside an exception handler'] if case.get('caller') == 'in_handler' else [])
+    classes = [f'end {end}', f'emit cost {case["emit_cost_ms"]}', f'interval {case["interval_ms"]}'] + (['run() called from inside an exception handler'] if case.get('caller') == 'in_handler' else []) + (['config with a mapping whose key is not an identifier'] if case.get('cfg_key') is not None and not (case['cfg_key'].isidentifier() and case['cfg_key'] not in ('class', 'type')) else [])
     if 'how' not in res:
         return bad(f'run() did not end within the horizon ({end}); events {seq}', f'run-not-ended:{end}', classes)
     if end in ('raise_init', 'raise_setup', 'raise_process', 'raise_shutdown', 'exit_exc_process'):
@@ -214,6 +216,8 @@ def matrix_cases(tier):
                     for pre in (None, 40):
                         yield {'end': end, 'k': k, 'work_ms': 100, 'emit_cost_ms': cost, 'interval_ms': interval, 'preempt_ms': pre}
         yield {'end': end, 'k': 3, 'work_ms': 100, 'emit_cost_ms': 0, 'interval_ms': 250, 'preempt_ms': None, 'caller': 'in_handler'}
+        for key in ('traffic-light', 'class', '1', 'a.b', ''):
+            yield {'end': end, 'k': 3, 'work_ms': 100, 'emit_cost_ms': 0, 'interval_ms': 250, 'preempt_ms': None, 'cfg_key': key}
 
 
 case_st = st.fixed_dictionaries({
@@ -221,6 +225,7 @@ case_st = st.fixed_dictionaries({
     'emit_cost_ms': st.sampled_from([0, 0, 1, 30, 99, 100, 400, 1500]), 'interval_ms': st.sampled_from([100, 250, 1000, 1000, 3000]),
     'preempt_ms': st.sampled_from([None, 0, 1, 7, 40, 99, 250]),
     'caller': st.sampled_from(['plain', 'plain', 'in_handler']),     # where run() is called from
+    'cfg_key': st.sampled_from([None, None, 'car', 'traffic-light', 'traffic light', '1', 'class', 'a.b', 'Person', '_x', 'b\u00e4r', '', 'person ', 'x/y', 'type']),
 })
 
 PARTS = [
